@@ -7,6 +7,7 @@ mod c13;
 mod c16;
 mod c19;
 mod common;
+mod progen;
 
 use common::*;
 
@@ -38,6 +39,45 @@ fn main() {
     let id = args[0].clone();
     if id == "samples13" {
         c13::debug_samples();
+        return;
+    }
+    if id == "progen" {
+        // check progen <n> [seed] [print]: acceptance statistics of the program generator (debugging aid)
+        install_panic_hook();
+        let n: usize = args.get(1).and_then(|s| s.parse().ok()).unwrap_or(200);
+        let seed: u64 = args.get(2).and_then(|s| s.parse().ok()).unwrap_or(1);
+        let print = args.get(3).is_some();
+        let strat = progen::choices_strategy(600);
+        let mut reasons: std::collections::BTreeMap<String, (usize, String)> = Default::default();
+        let mut ok = 0;
+        let mut bytes = 0;
+        for ch in sample_strategy(&strat, seed, n) {
+            for tgt in [Tgt::Dx, Tgt::Msl] {
+            let (_p, text, _) = progen::generate(&ch, if tgt == Tgt::Msl { progen::Profile::exec_msl() } else { progen::Profile::exec_hlsl() });
+            bytes += text.len();
+            if print {
+                println!("{}\n// ------------------------------------------", text);
+            }
+                match compile_text(&text, tgt) {
+                    Err(p) => {
+                        reasons.entry(format!("{} PANIC {}", tgt.name(), p)).or_insert((0, text.clone())).0 += 1;
+                    }
+                    Ok(Err(e)) => {
+                        let first = e.lines().next().unwrap_or("").to_string();
+                        let key = format!("{} {}", tgt.name(), normalise_panic(first.split("error:").nth(1).unwrap_or(&first)));
+                        reasons.entry(key).or_insert((0, format!("{}\n{}", e, text))).0 += 1;
+                    }
+                    Ok(Ok(_)) => ok += 1,
+                }
+            }
+        }
+        println!("accepted {} of {} compilations, avg {} bytes", ok, 2 * n, bytes / n.max(1));
+        for (k, (c, ex)) in &reasons {
+            println!("{:5} {}", c, k);
+            if args.get(3).map(|s| s == "ex").unwrap_or(false) {
+                println!("{}", ex);
+            }
+        }
         return;
     }
     if id == "dump" {
